@@ -20,6 +20,11 @@ def dispatch (cmd : String) (args : List String) : String :=
   | "BKD" => bkd args
   | "BKDR" => bkdr args
   | "RUN" => runCmd args
+  | "RUNPAIR" =>
+    -- two runtimes in one process do not share anything: each behaves as it does alone
+    (match args.span (· ≠ "||") with
+     | (a, _ :: b) => runCmd a ++ " || " ++ runCmd b
+     | _ => "BADARG")
   | "VM" => vmCmd args
   | "LOW" => lowCmd args
   | "UID" => uidCmd args
@@ -27,6 +32,7 @@ def dispatch (cmd : String) (args : List String) : String :=
   | "XPT" => xptCmd args
   | "WT" => wtCmd args
   | "CMP" => cmp args
+  | "CMPX" => cmpx args
   | "AST" => ast args
   | "ORC" => (match args with
     | "C04" :: rest => orcC04 rest
